@@ -433,7 +433,7 @@ theorem sumScores_eq_none {l : List Obj} : sumScores l = none ↔ ∃ x ∈ l, x
 theorem eliminate_ok {v : Obj → Res} {votes out : List (Obj × Rat)}
     (h : eliminate v votes = .ok out) :
     out = votes.filter (fun p => decide (v p.1 = .ok ())) ∧
-    ∀ p ∈ votes, v p.1 = .ok () ∨ v p.1 = .error .voteError := by
+    ∀ p ∈ votes, v p.1 ≠ .error .typeError := by
   induction votes generalizing out with
   | nil => simp [eliminate] at h; simp [h]
   | cons p rest ih =>
@@ -451,7 +451,7 @@ theorem eliminate_ok {v : Obj → Res} {votes out : List (Obj × Rat)}
         refine ⟨by simp [hk, h1], ?_⟩
         intro p hp
         rcases List.mem_cons.1 hp with rfl | hp
-        · exact Or.inl hk
+        · simp [hk]
         · exact h2 p hp
       | error e => rw [hr] at h; cases h
     · rw [hk] at h
@@ -462,59 +462,34 @@ theorem eliminate_ok {v : Obj → Res} {votes out : List (Obj × Rat)}
         refine ⟨by simp [hk, h1], ?_⟩
         intro p hp
         rcases List.mem_cons.1 hp with rfl | hp
-        · exact Or.inr hk
+        · simp [hk]
         · exact h2 p hp
-      | candidateError => simp at h
+      | candidateError =>
+        simp only at h
+        obtain ⟨h1, h2⟩ := ih h
+        refine ⟨by simp [hk, h1], ?_⟩
+        intro p hp
+        rcases List.mem_cons.1 hp with rfl | hp
+        · simp [hk]
+        · exact h2 p hp
       | typeError => simp at h
 
 theorem eliminate_of_library_errors {v : Obj → Res} {votes : List (Obj × Rat)}
-    (h : ∀ p ∈ votes, v p.1 = .ok () ∨ v p.1 = .error .voteError) :
+    (h : ∀ p ∈ votes, v p.1 ≠ .error .typeError) :
     eliminate v votes = .ok (votes.filter (fun p => decide (v p.1 = .ok ()))) := by
   induction votes with
   | nil => simp [eliminate]
   | cons p rest ih =>
     obtain ⟨k, n⟩ := p
     have hrest := ih (fun p hp => h p (List.mem_cons_of_mem _ hp))
+    have hk0 := h (k, n) List.mem_cons_self
     rw [eliminate]
-    rcases h (k, n) List.mem_cons_self with hk | hk
-    · simp only at hk
-      rw [hk]
-      simp [hrest, hk]
-    · simp only at hk
-      rw [hk]
-      simp [hrest, hk]
-
-theorem eliminate_err {v : Obj → Res} {votes : List (Obj × Rat)} {e : Rej}
-    (h : eliminate v votes = .error e) : ∃ p ∈ votes, v p.1 = .error e ∧ e ≠ .voteError := by
-  induction votes with
-  | nil => simp [eliminate] at h
-  | cons p rest ih =>
-    obtain ⟨k, n⟩ := p
-    rw [eliminate] at h
-    rcases res_cases (v k) with hk | ⟨e', hk⟩
-    · rw [hk] at h
-      simp only at h
-      cases hr : eliminate v rest with
-      | ok out' => rw [hr] at h; cases h
-      | error e'' =>
-        rw [hr] at h
-        simp only [Except.error.injEq] at h
-        subst h
-        obtain ⟨p, hp, h3⟩ := ih hr
-        exact ⟨p, List.mem_cons_of_mem _ hp, h3⟩
-    · rw [hk] at h
-      cases e' with
-      | voteError =>
-        simp only at h
-        obtain ⟨p, hp, h3⟩ := ih h
-        exact ⟨p, List.mem_cons_of_mem _ hp, h3⟩
-      | candidateError =>
-        simp only [Except.error.injEq] at h
-        subst h
-        exact ⟨(k, n), List.mem_cons_self, hk, by decide⟩
-      | typeError =>
-        simp only [Except.error.injEq] at h
-        subst h
-        exact ⟨(k, n), List.mem_cons_self, hk, by decide⟩
+    rcases res_cases (v k) with hk | ⟨e, hk⟩
+    · rw [hk]; simp [hrest, hk]
+    · rw [hk]
+      cases e with
+      | voteError => simp [hrest, hk]
+      | candidateError => simp [hrest, hk]
+      | typeError => exact absurd hk hk0
 
 end VL.Validate
